@@ -24,5 +24,13 @@ def run(ctx):
         "accessors are total (C18)",
     ]
     rows, summ = RC.check_c17(ctx, led)
+    # interactive entry is the builder: what main() scores without -v is the string it returns, an
+    # exception it lets out is a traceback of the calculator, and end of input must surface as
+    # EOFError (the only thing main() catches around it)
+    from ..rules_inter import check_c16
+    from ..rules_parse import RelabelLedger
+
+    check_c16(ctx, RelabelLedger(led, "C17.interactive", strip="C16."))
+    RC.check_eof_source(ctx, led)
     led.require_min("C17.version", rows, 64, "truth-table rows of the version selection")
     led.undecided("C17.argparse", "text produced by argparse itself and argv that argparse rejects")
